@@ -55,6 +55,16 @@ type Outer struct {
 	NilM   map[string]int
 }
 
+func c06Twin1() interface{} {
+	type T struct{ A, B string }
+	return T{A: "1A", B: "1B"}
+}
+
+func c06Twin2() interface{} {
+	type T struct{ B, A string }
+	return T{B: "2B", A: "2A"}
+}
+
 // c06Boom: a method that dereferences its (nil) receiver - a Go run-time error, not an error Jet raises
 type c06Boom struct{ Name string }
 
@@ -205,6 +215,27 @@ func c06Replay(i int, raw json.RawMessage) Result {
 	if v.Catalogue != nil {
 		if why := c06SelfCheck(v.Catalogue); why != "" {
 			return Result{Detail: "harness: Go catalogue does not mirror spec/JetAccess.tla: " + why}
+		}
+		// two distinct struct types that print alike (same name, declared in different functions) with their fields
+		// in different order: each is resolved by its own layout, in whichever order they are met
+		for _, seq := range [][]int{{1, 2, 1}, {2, 1, 2}} {
+			for _, which := range seq {
+				val, want := c06Twin1(), "1A|1B"
+				if which == 2 {
+					val, want = c06Twin2(), "2A|2B"
+				}
+				t, err := c06Set.Parse("/twin.jet", `{{ .A }}|{{ .B }}`)
+				if err != nil {
+					return Result{Detail: "harness: " + err.Error()}
+				}
+				var b bytes.Buffer
+				err = safeExecute(t, &b, nil, val)
+				if err != nil || b.String() != want {
+					sig := map[string]interface{}{"kind": "value", "root": "twin", "expect": "leaf", "laststep": "name", "lastname": "A"}
+					return Result{Sig: sig, Key: "twins", Observed: b.String(), Expected: want,
+						Detail: fmt.Sprintf("{{ .A }}|{{ .B }} on the %T declared in function %d rendered %q (err %v), its fields hold %q", val, which, b.String(), err, want)}
+				}
+			}
 		}
 		for _, h := range v.Hostile {
 			for _, form := range []string{"{{ isset(" + h + ") }}", "{{ isset(root, " + h + ") }}", "{{ if isset(" + h + ") }}true{{ else }}false{{ end }}",
